@@ -35,9 +35,9 @@ package interp
 // The compiler cannot help you since value is an empty interface.
 
 import (
-	"go/token"
 	"bytes"
 	"fmt"
+	"go/token"
 	"go/types"
 	"io"
 	"reflect"
